@@ -187,7 +187,9 @@ CHECKS = {
              'canonical spelling; compose() of the canonical value must itself parse equal. The engines underneath are modelled as coded: '
              'every call of the text list parser (ParserText.tla) and of the text composer primitives (ComposerText.tla) made while real '
              'classes work is validated line by line; MC_ComposerText proves that a composed list parses back exactly when no item is '
-             'empty, holds the separator or starts/ends with a blank.',
+             'empty, holds the separator or starts/ends with a blank; all short texts are replayed on the number / separator / literal '
+             'readers (Gen_ParserTextPrims) and all header sections of <= 3 lines over known, respelled, fragment and unknown names on '
+             'the header section dispatcher (HeaderBlock.tla).',
         design_ref='6/C18, Appendix D, 14.1, 16',
         note='Trusted: Allowed(type) as my reading of the RFCs; the harness tokeniser (TLC asserts that Render of the tokenised '
              'value reproduces the canonical text); NEL (JSON) is not generated.',
